@@ -891,8 +891,8 @@ class Pile(Widget, WidgetContainerMixin, WidgetContainerListContentsMixin):
         _widths, heights, size_args = self.get_rows_sizes(size, focus=self.selectable())
         if self.selectable():
             key = self.focus.keypress(size_args[i], key)
-            if self._command_map[key] not in {Command.UP, Command.DOWN}:
-                return key
+        if self._command_map[key] not in {Command.UP, Command.DOWN}:
+            return key
 
         if self._command_map[key] == Command.UP:
             candidates = tuple(range(i - 1, -1, -1))  # count backwards to 0
